@@ -220,7 +220,7 @@ pub fn remove_dir(ctx: &Ctx, rel: &str) {
     });
 }
 
-fn get(h: &bc::Handle, k: &[u8]) -> Result<Option<Vec<u8>>, String> {
+pub fn get(h: &bc::Handle, k: &[u8]) -> Result<Option<Vec<u8>>, String> {
     match std::panic::catch_unwind(std::panic::AssertUnwindSafe(|| h.get(Bytes::copy_from_slice(k)))) {
         Ok(Ok(v)) => Ok(v.map(|b| b.to_vec())),
         Ok(Err(e)) => Err(format!("Err({})", e)),
@@ -228,7 +228,7 @@ fn get(h: &bc::Handle, k: &[u8]) -> Result<Option<Vec<u8>>, String> {
     }
 }
 
-fn set(h: &bc::Handle, k: &[u8], v: Vec<u8>) -> Result<(), String> {
+pub fn set(h: &bc::Handle, k: &[u8], v: Vec<u8>) -> Result<(), String> {
     match std::panic::catch_unwind(std::panic::AssertUnwindSafe(|| h.set(Bytes::copy_from_slice(k), Bytes::from(v)))) {
         Ok(Ok(())) => Ok(()),
         Ok(Err(e)) => Err(format!("Err({})", e)),
@@ -236,7 +236,7 @@ fn set(h: &bc::Handle, k: &[u8], v: Vec<u8>) -> Result<(), String> {
     }
 }
 
-fn del(h: &bc::Handle, k: &[u8]) -> Result<bool, String> {
+pub fn del(h: &bc::Handle, k: &[u8]) -> Result<bool, String> {
     match std::panic::catch_unwind(std::panic::AssertUnwindSafe(|| h.del(Bytes::copy_from_slice(k)))) {
         Ok(Ok(b)) => Ok(b),
         Ok(Err(e)) => Err(format!("Err({})", e)),
@@ -244,7 +244,7 @@ fn del(h: &bc::Handle, k: &[u8]) -> Result<bool, String> {
     }
 }
 
-fn merge(h: &bc::Handle) -> Result<(), String> {
+pub fn merge(h: &bc::Handle) -> Result<(), String> {
     match std::panic::catch_unwind(std::panic::AssertUnwindSafe(|| h.verif_merge())) {
         Ok(Ok(())) => Ok(()),
         Ok(Err(e)) => Err(format!("Err({})", e)),
@@ -339,7 +339,7 @@ pub struct SeqState {
     pub opkinds: u64,
 }
 
-fn tag_of(thread: usize, idx: usize) -> u64 {
+pub fn tag_of(thread: usize, idx: usize) -> u64 {
     ((thread as u64 + 1) << 32) | (idx as u64 + 1)
 }
 
@@ -520,6 +520,7 @@ pub fn run_seq(ctx: &mut Ctx, scn: &StoreScn) {
             Op::ClockJump(secs) => {
                 ctx.sim.wall_skew_ns.fetch_add(secs * 1_000_000_000, std::sync::atomic::Ordering::Relaxed);
             }
+            Op::Close => {}
         }
         drop(h);
         let last_seq = io_seq(ctx.sim);
@@ -1121,7 +1122,7 @@ fn exec_recorded(ctx: &mut Ctx, scn: &StoreScn, rel: &str) -> Option<(Vec<OpRec>
             Op::Sync => {
                 let _ = h.verif_sync();
             }
-            Op::ClockJump(_) => {}
+            Op::ClockJump(_) | Op::Close => {}
         }
         drop(h);
         let last_seq = io_seq(ctx.sim);
@@ -1754,4 +1755,187 @@ pub fn dump_io_log(sim: &Sim) {
             eprintln!("{:>4} t{} op{:<3} {:?} {} fd={} a={} b={} res={} {}{}", r.seq, r.tid, r.tag & 0xffff_ffff, r.op, fs.path_name(r.path), r.fd, r.a, r.b, r.res, r.what, if r.injected { " [injected]" } else { "" });
         }
     });
+}
+
+// =============================================================================================
+// C04: concurrent handles, linearizability per key
+
+use crate::lin::{self, LOp};
+use std::sync::atomic::{AtomicU64, Ordering as AtOrd};
+use std::sync::{Arc, Mutex as StdMutex};
+
+#[derive(Clone, Debug)]
+pub struct HEvent {
+    pub thread: usize,
+    pub idx: usize,
+    pub key: usize,
+    pub inv: u64,
+    pub ret: u64,
+    /// 0 set, 1 get, 2 del
+    pub kind: u8,
+    pub written: Option<Vec<u8>>,
+    pub got: Option<Vec<u8>>,
+    pub present: bool,
+    pub error: Option<String>,
+}
+
+pub fn check_history(ctx: &mut Ctx, keys: &[Vec<u8>], events: &[HEvent]) {
+    for (ki, key) in keys.iter().enumerate() {
+        let mut ids: BTreeMap<Vec<u8>, u32> = BTreeMap::new();
+        let mut id_of = |v: &Vec<u8>, ids: &mut BTreeMap<Vec<u8>, u32>| -> u32 {
+            let n = ids.len() as u32 + 1;
+            *ids.entry(v.clone()).or_insert(n)
+        };
+        let mut ops: Vec<LOp> = Vec::new();
+        for e in events.iter().filter(|e| e.key == ki) {
+            let kind = match e.kind {
+                0 => lin::Kind::Write(id_of(e.written.as_ref().unwrap(), &mut ids)),
+                1 => lin::Kind::Read(e.got.as_ref().map(|v| id_of(v, &mut ids))),
+                _ => lin::Kind::Del(e.present),
+            };
+            let who = match e.kind {
+                0 => format!("t{}#{} set({})", e.thread, e.idx, hexo(&e.written)),
+                1 => format!("t{}#{} get->{}", e.thread, e.idx, hexo(&e.got)),
+                _ => format!("t{}#{} del->{}", e.thread, e.idx, e.present),
+            };
+            ops.push(LOp { inv: e.inv, ret: e.ret, kind, who });
+        }
+        if ops.len() > 60 {
+            ops.truncate(60);
+        }
+        if !lin::linearizable(&ops, None) {
+            ops.sort_by_key(|o| o.inv);
+            // a read of a value that was never written is the crispest diagnosis
+            let written: BTreeSet<u32> = ops.iter().filter_map(|o| if let lin::Kind::Write(v) = o.kind { Some(v) } else { None }).collect();
+            let phantom = ops.iter().any(|o| matches!(o.kind, lin::Kind::Read(Some(v)) if !written.contains(&v)));
+            let h: Vec<String> = ops.iter().map(|o| format!("[{}..{}] {}", o.inv, o.ret, o.who)).collect();
+            ctx.viol(
+                if phantom { "read-of-unwritten-value" } else { "not-linearizable" },
+                format!("the history of key {} has no linearization: {}", hex(key), h.join("; ")),
+                "",
+            );
+            return;
+        }
+    }
+}
+
+pub fn run_conc(ctx: &mut Ctx, scn: &StoreScn) {
+    let rel = ctx.new_dir("s");
+    let store = match open_store(ctx, &rel, &scn.cfg) {
+        Ok(s) => s,
+        Err(e) => {
+            ctx.viol("open-failed", format!("initial open failed: {}", e), "");
+            return;
+        }
+    };
+    let clock = Arc::new(AtomicU64::new(1));
+    let events: Arc<StdMutex<Vec<HEvent>>> = Arc::new(StdMutex::new(Vec::new()));
+    let problems: Arc<StdMutex<Vec<String>>> = Arc::new(StdMutex::new(Vec::new()));
+    let mut joins = Vec::new();
+    for (ti, ops) in scn.threads.iter().enumerate() {
+        let h = store.h.clone();
+        let ops = ops.clone();
+        let keys = scn.keys.clone();
+        let clock = clock.clone();
+        let events = events.clone();
+        let problems = problems.clone();
+        joins.push(simrt::spawn(&format!("client-{}", ti), simrt::sched::DEFAULT_STACK, move || {
+            for (i, op) in ops.iter().enumerate() {
+                fsim::set_op_tag(tag_of(ti, i));
+                match op {
+                    Op::Set(k, v) => {
+                        let val = v.bytes();
+                        let inv = clock.fetch_add(1, AtOrd::SeqCst);
+                        let r = set(&h, &keys[*k], val.clone());
+                        let ret = clock.fetch_add(1, AtOrd::SeqCst);
+                        let error = r.err();
+                        events.lock().unwrap().push(HEvent { thread: ti, idx: i, key: *k, inv, ret, kind: 0, written: Some(val), got: None, present: false, error });
+                    }
+                    Op::Get(k) => {
+                        let inv = clock.fetch_add(1, AtOrd::SeqCst);
+                        let r = get(&h, &keys[*k]);
+                        let ret = clock.fetch_add(1, AtOrd::SeqCst);
+                        let (got, error) = match r {
+                            Ok(g) => (g, None),
+                            Err(e) => (None, Some(e)),
+                        };
+                        events.lock().unwrap().push(HEvent { thread: ti, idx: i, key: *k, inv, ret, kind: 1, written: None, got, present: false, error });
+                    }
+                    Op::Del(k) => {
+                        let inv = clock.fetch_add(1, AtOrd::SeqCst);
+                        let r = del(&h, &keys[*k]);
+                        let ret = clock.fetch_add(1, AtOrd::SeqCst);
+                        let (present, error) = match r {
+                            Ok(b) => (b, None),
+                            Err(e) => (false, Some(e)),
+                        };
+                        events.lock().unwrap().push(HEvent { thread: ti, idx: i, key: *k, inv, ret, kind: 2, written: None, got: None, present, error });
+                    }
+                    Op::Merge => {
+                        if let Err(e) = merge(&h) {
+                            problems.lock().unwrap().push(format!("t{}#{} merge returned {}", ti, i, e));
+                        }
+                    }
+                    Op::Pass(ms) => {
+                        let (sim, me) = simrt::current().unwrap();
+                        sim.sleep_thread(me, ms * 1_000_000);
+                    }
+                    _ => {}
+                }
+            }
+            fsim::set_op_tag(0);
+        }));
+    }
+    for j in joins {
+        let _ = j.join();
+    }
+    let mut evs = events.lock().unwrap().clone();
+    if let Some(p) = problems.lock().unwrap().first() {
+        ctx.viol("op-failed", p.clone(), "");
+    }
+    if let Some(e) = evs.iter().find(|e| e.error.is_some()) {
+        let what = match e.kind {
+            0 => "set",
+            1 => "get",
+            _ => "del",
+        };
+        ctx.viol("op-failed", format!("t{}#{} {}({}) returned {} (no fault injected)", e.thread, e.idx, what, hex(&scn.keys[e.key]), e.error.clone().unwrap()), "");
+    }
+    // the ability to serve reads is not reduced
+    let (avail, cap) = store.h.verif_readers();
+    if avail != cap && ctx.out.violations.is_empty() {
+        ctx.viol("reader-pool-reduced", format!("at quiescence only {} of {} pool readers are available", avail, cap), "");
+    }
+    // final quiescent scan joins the history as reads
+    if ctx.out.violations.is_empty() {
+        for (ki, key) in scn.keys.iter().enumerate() {
+            let inv = clock.fetch_add(1, AtOrd::SeqCst);
+            let r = get(&store.h, key);
+            let ret = clock.fetch_add(1, AtOrd::SeqCst);
+            match r {
+                Ok(g) => evs.push(HEvent { thread: 99, idx: ki, key: ki, inv, ret, kind: 1, written: None, got: g, present: false, error: None }),
+                Err(e) => {
+                    ctx.viol("op-failed", format!("final get({}) returned {}", hex(key), e), "");
+                    break;
+                }
+            }
+        }
+    }
+    if ctx.out.violations.is_empty() {
+        evs.retain(|e| e.error.is_none());
+        check_history(ctx, &scn.keys, &evs);
+    }
+    // observation hash: results in program order per thread
+    evs.sort_by_key(|e| (e.thread, e.idx));
+    for e in &evs {
+        ctx.observe(mix(e.inv, e.ret));
+        ctx.observe_bytes(e.got.as_deref().unwrap_or(b"-"));
+        ctx.observe(e.present as u64);
+    }
+    let st = ctx.sim.stats();
+    ctx.sig(st.trace_hash);
+    ctx.out.nontrivial = st.switches > scn.threads.len() as u64 + 2;
+    drop(store);
+    ctx.join_others();
+    remove_dir(ctx, &rel);
 }
